@@ -29,9 +29,15 @@ CONSTANTS Worlds,        \* set of worlds
           Queries,       \* subset of QueryKinds
           MaxFaults,
           FaultsOf(_, _),\* (world, query) -> the faults the adversary may choose from
-          DsAbsentRule   \* "required": a DS response proves "no DS" only by an authenticated NSEC at
-                         \* the cut; "asis-no-ds-in-answer": any accepted response whose answer section
-                         \* holds no DS record (the rule found in the code, AsIs configuration only)
+          AsIs           \* {} in every property configuration.  The AsIs configuration switches on
+                         \* the rules found in the code (DESIGN.md A.5), each of which TLC refutes:
+                         \*   "keys-by-ds-only"  a DNSKEY RRset all of whose keys match the DS is
+                         \*                      accepted without a valid RRSIG
+                         \*   "any-signer"       an RRSIG is followed to whatever zone its Signer's
+                         \*                      Name field names (no "zone that contains the RRset")
+                         \*   "ns-finds-cut"     for unsigned data the enclosing cut is looked for with
+                         \*                      unauthenticated NS queries and any authenticated
+                         \*                      NODATA for DS at that name counts as "insecure"
 
 VARIABLES w, q, F,       \* world, query, faults
           phase,         \* "adversary" | "anchor" | "ds" | "keys" | "items" | "conclude" | "serve" | "done"
@@ -75,19 +81,15 @@ AuthAnchorKeys ==
     /\ phase' = IF anchor = w.n THEN "items" ELSE "ds"
     /\ Step /\ UNCHANGED <<w, q, F, anchor, dsst, verdict, class, served>>
 
-\* the DS response of the cut below zone `at`, as the rule in force reads it
+\* RFC 4035 5.2 / RFC 6840 4.4: the DS response of the cut of zone c, read with authenticated
+\* keys of the parent
 DsReading(c) ==
-    LET ds == ItemState(w, F, "DS", c, "ds")
-        present == "ds" \in DsItems(w, c)
-        accepted == \* the response came back without a validation error
-            IF present THEN ds \in {"genuine", "absent"} /\ ~(\E f \in F : f.resp = "DS" /\ f.z = c /\ f.op = "dropMsg")
-            ELSE TRUE
-    IN  IF present /\ ds = "genuine"
-        THEN (IF w.link[c] = "dsunsup" THEN "Insecure" ELSE "Secure")
-        ELSE IF ~present /\ w.signed[c - 1] /\ ItemState(w, F, "DS", c, "nsecds") = "genuine" THEN "Insecure"
-        ELSE IF DsAbsentRule = "asis-no-ds-in-answer" /\ present /\ ds = "absent" /\ accepted
-                /\ (\E f \in F : f.resp = "DS" /\ f.z = c /\ f.op = "childSide") THEN "Insecure"
-        ELSE "Bogus"
+    IF "ds" \in DsItems(w, c)
+    THEN (IF ItemState(w, F, "DS", c, "ds") = "genuine"
+          THEN (IF w.link[c] = "dsunsup" THEN "Insecure" ELSE "Secure")
+          ELSE "Bogus")
+    ELSE IF w.signed[c - 1] /\ ItemState(w, F, "DS", c, "nsecds") = "genuine" THEN "Insecure"
+    ELSE "Bogus"
 
 AuthDS ==
     /\ phase = "ds"
@@ -101,7 +103,9 @@ AuthKeys ==
     /\ at' = at + 1
     /\ st' = IF dsst = "Secure"
              THEN (IF w.link[at + 1] = "ds" /\ w.signed[at + 1]
-                      /\ ItemState(w, F, "KEY", at + 1, "dnskey") = "genuine" THEN "Secure" ELSE "Bogus")
+                      /\ ItemState(w, F, "KEY", at + 1, "dnskey") \in
+                             (IF "keys-by-ds-only" \in AsIs /\ w.keys[at + 1] = 1 THEN {"genuine", "nosig"} ELSE {"genuine"})
+                   THEN "Secure" ELSE "Bogus")
              ELSE dsst
     /\ phase' = IF at + 1 = w.n THEN "items" ELSE "ds"
     /\ Step /\ UNCHANGED <<w, q, F, anchor, dsst, verdict, class, served>>
@@ -112,10 +116,17 @@ AnsDropped == \E f \in F : f.resp = "ANS" /\ f.op = "dropMsg"
 
 \* RFC 4035 5.3: an RRset is authenticated by an RRSIG of an authenticated zone key; 4.3: data
 \* that ought to be signed and is not verifiable is Bogus; below a proven insecure cut, Insecure
+HasOp(x, op) == \E f \in F : f.resp = "ANS" /\ f.item = x /\ f.op = op
+NoSigsLeft(x) == x = "inj" \/ HasOp(x, "dropSig")
+FakeCut == \E f \in F : f.resp = "NS" /\ f.op = "inject"
+
 JudgeItem(x) ==
     /\ phase = "items" /\ x \in Delivered \ DOMAIN verdict /\ ~AnsDropped
     /\ verdict' = [y \in DOMAIN verdict \cup {x} |->
                      IF y # x THEN verdict[y]
+                     ELSE IF "any-signer" \in AsIs /\ HasOp(x, "forgeEvil") THEN "Secure"
+                     ELSE IF "any-signer" \in AsIs /\ HasOp(x, "forgeIsland") THEN "Insecure"
+                     ELSE IF "ns-finds-cut" \in AsIs /\ NoSigsLeft(x) /\ FakeCut /\ st = "Secure" THEN "Insecure"
                      ELSE IF st = "Secure"
                           THEN (IF x # "inj" /\ w.signed[w.n] /\ ItemState(w, F, "ANS", 0, x) = "genuine"
                                 THEN "Secure" ELSE "Bogus")
